@@ -3,6 +3,7 @@
 import json
 props=[json.loads(l)['id'] for l in open('/verif/properties.jsonl')]
 CLAIMS = {
+ "C07": ("proof", "concat, starts-with, contains, substring-before, substring-after and string-length proved equal to the section 4.2 definitions (over assumed contracts of strings.HasPrefix/Index/Contains and utf8.RuneCountInString); substring, normalize-space and translate proved never to fail or panic for any argument values (all doubles, all strings) and to return a string. Their character-level results are covered by a BOUNDED stand-in only (every string up to 3 characters, 4 in thorough, over a 12-character alphabet x a 17-value numeric grid, against an independent oracle) because the engine does not model UTF-8 decoding of range-over-string", "bounded stand-in for the results of substring/normalize-space/translate (labelled in evidence, not counted as proved); package strings and unicode/utf8 assumed"),
  "C13": ("proof", "the frame obligation of every function under contract (117 functions in exec, store, grammar): nothing allocated before the call changes unless named in the modifies clause; Exec's own clause names nothing of the caller's, so trees, compiled expressions, binding maps and caller-owned node-sets are not written; no package-level state is written outside initialisers (scan); determinism follows from purity of every callee contract", "BuildExpr equivalence across calls not covered (generated parser); user functions assumed pure (A-FN); Unmarshal not yet covered"),
  "C10": ("proof", "contracts on every store operation: each created node is fresh with the given position and parent; addNamespace/inheritNamespaces keep every namespace node owned by its element (fresh copies, overridden by prefix), positions handed out in (element pos, counter]; accessors return the stored fields; the event loop is not recursive (structural obligation). The event loop's whole-tree behaviour (nesting, global uniqueness of positions) is covered by a BOUNDED stand-in only (all conforming streams up to 7 events, 8 in thorough)", "bounded stand-in for createInMemory (labelled in evidence, not counted as proved); Parser contract assumed for the streams enumerated"),
  "C02": ("proof", "execPredicate/execStep/filter-expression handlers equal the Sem definition: one evaluation per context node, position = index in the candidate list in axis order, last() = its length, [n] as IEEE position()=n, (E)[p] numbered in document order, path continued after a filter (dispatch obligations for PathExprFilter*)", "Sem layer (module sem, written from XPath 1.0); A-BSR; the lemma 'strictly monotone sequence is determined by its member set' is assumed (module seqcanon)"),
